@@ -148,6 +148,10 @@ int translate_absolute_line (int abs_line, unsigned short *file_info, size_t blo
   unsigned short *p1, *p2, *end = file_info + (block_size / sizeof(unsigned short));
   int file;
   int line_tmp = abs_line;
+  /* files that are open at the chunk being looked at, innermost last, with the lines
+   * each of them has had so far */
+  struct { int file; int lines; } open_files[64];
+  int depth = 0, i;
 
   /* two passes: first, find out what file we're interested in */
   p1 = file_info;
@@ -160,14 +164,31 @@ int translate_absolute_line (int abs_line, unsigned short *file_info, size_t blo
     }
   file = p1[1];
 
-  /* now correct the line number for that file */
-  p2 = file_info;
-  while (p2 < p1)
+  /* Now correct the line number for that file. The chunks before this one are the
+   * including files interrupted by their includes: a chunk of a file that is still
+   * open continues its count (and closes the includes opened since), any other chunk
+   * opens a new include that starts at line 1 - also when the same header was included
+   * before. */
+  for (p2 = file_info; p2 < p1; p2 += 2)
     {
-      if (p2[1] == file)
-        line_tmp += *p2;
-      p2 += 2;
+      for (i = depth - 1; i >= 0 && open_files[i].file != p2[1]; i--)
+        ;
+      if (i >= 0)
+        {
+          depth = i + 1;
+          open_files[i].lines += *p2;
+        }
+      else if (depth < (int) (sizeof (open_files) / sizeof (open_files[0])))
+        {
+          open_files[depth].file = p2[1];
+          open_files[depth].lines = *p2;
+          depth++;
+        }
     }
+  for (i = depth - 1; i >= 0 && open_files[i].file != file; i--)
+    ;
+  if (i >= 0)
+    line_tmp += open_files[i].lines;
   *ret_line = line_tmp;
   *ret_file = file;
   return 0;
